@@ -1066,6 +1066,7 @@ func runC12(args []string) int {
 	writeFile(o.Out, "cases_C12_mul.v", hdr+fmt.Sprintf("Definition mulcases : list (Z * list Z * list Z * list Z * list Z * list Z * list Z) := %s.\n", coqlistNL(mulCases))+
 		fmt.Sprintf("Definition mism_mulhint := Eval vm_compute in mul_mismatches %s 0 mulcases.\nPrint mism_mulhint.\n", zlit(bnQ)))
 	rep.CoqCases = len(padCases) + len(opCases) + len(mulCases)
+	c12ShortElems(rep, rng)
 	rep.Write(o.Out)
 	return 0
 }
